@@ -141,10 +141,11 @@ type certSpec struct {
 	Enc      string   `json:"enc"`      // repo (utils.MakeReceptorSAN) | indep (own encoder)
 	Foreign  string   `json:"foreign"`  // if set (indep only): an otherName of another OID carrying this text
 	Key      int      `json:"key"`
+	Nonce    string   `json:"nonce,omitempty"` // distinguishes otherwise identical certificates
 }
 
 func (s certSpec) id() string {
-	return fmt.Sprintf("%s|%s|%s|%q|%q|%s|%q|%d", s.Issuer, s.Validity, s.Usage, s.RNames, s.DNames, s.Enc, s.Foreign, s.Key)
+	return fmt.Sprintf("%s|%s|%s|%q|%q|%s|%q|%d|%s", s.Issuer, s.Validity, s.Usage, s.RNames, s.DNames, s.Enc, s.Foreign, s.Key, s.Nonce)
 }
 
 func (p *pki) get(s certSpec) (*leaf, error) {
